@@ -54,7 +54,12 @@ pub enum Case {
         name_shape: u8,
     },
     /// concurrent first opens of one path through the keyring
-    ConcurrentOpen { threads: u8 },
+    ConcurrentOpen {
+        threads: u8,
+        /// false: keyring constructor; true: caller-supplied key
+        #[serde(default)]
+        with_key: bool,
+    },
 }
 
 thread_local! {
@@ -488,7 +493,7 @@ fn check_dirs(root: &Path, leaf: &Path) -> Result<(), Failure> {
     Ok(())
 }
 
-fn concurrent(threads: u8, rep: &mut CaseReport) -> Result<(), Failure> {
+fn concurrent(threads: u8, with_key: bool, rep: &mut CaseReport) -> Result<(), Failure> {
     ensure_mock_keyring();
     let dir = scratch_dir("c13c");
     let path = dir.0.join("shared.db");
@@ -503,8 +508,14 @@ fn concurrent(threads: u8, rep: &mut CaseReport) -> Result<(), Failure> {
                 let id = id.clone();
                 s.spawn(move || {
                     b.wait();
-                    std::panic::catch_unwind(|| MdkSqliteStorage::new(&path, KEYRING_SERVICE, &id).map_err(|e| e.to_string()))
-                        .unwrap_or_else(|_| Err("PANIC".to_string()))
+                    std::panic::catch_unwind(|| {
+                        if with_key {
+                            MdkSqliteStorage::new_with_key(&path, EncryptionConfig::new(key_for_path(&path))).map_err(|e| e.to_string())
+                        } else {
+                            MdkSqliteStorage::new(&path, KEYRING_SERVICE, &id).map_err(|e| e.to_string())
+                        }
+                    })
+                    .unwrap_or_else(|_| Err("PANIC".to_string()))
                 })
             })
             .collect();
@@ -526,9 +537,29 @@ fn concurrent(threads: u8, rep: &mut CaseReport) -> Result<(), Failure> {
             rep.classes.push(format!("concurrent-open-error:{kind}"));
         }
     }
+    if let Some(e) = results.iter().find_map(|r| r.as_ref().err()) {
+        return Err(Failure::new(
+            "database-refused-the-right-credentials",
+            format!("{n} threads opened the same new path at once with {}: one of them was refused: {e}", if with_key { "the same caller key" } else { "the keyring constructor" }),
+        ));
+    }
     let oks: Vec<&MdkSqliteStorage> = results.iter().filter_map(|r| r.as_ref().ok()).collect();
     *rep.counters.entry("concurrent-opens".into()).or_insert(0) += n as u64;
     *rep.counters.entry("concurrent-opens-succeeded".into()).or_insert(0) += oks.len() as u64;
+    if with_key {
+        // no keyring involved: the file is encrypted with that key and nothing else opens it
+        drop(results);
+        MdkSqliteStorage::new_with_key(&path, EncryptionConfig::new(key_for_path(&path)))
+            .map_err(|e| Failure::new("database-refused-the-right-credentials", format!("open after the race: {e}")))?;
+        let mut other = key_for_path(&path);
+        other[0] ^= 1;
+        if MdkSqliteStorage::new_with_key(&path, EncryptionConfig::new(other)).is_ok() || MdkSqliteStorage::new_unencrypted(&path).is_ok() {
+            return Err(Failure::new("database-opened-with-the-wrong-credentials", "after concurrent first opens with a caller key".to_string()));
+        }
+        rep.classes.push(format!("concurrent-open-with-key-{}-threads", n));
+        rep.nontrivial = true;
+        return Ok(());
+    }
     let key = mdk_sqlite_storage::keyring::get_db_key(KEYRING_SERVICE, &id).map_err(|e| Failure::new("keyring-unreadable", e.to_string()))?;
     let Some(key) = key else {
         if oks.is_empty() {
@@ -564,7 +595,7 @@ pub fn exec(case: &Case, _mode: Mode) -> Result<CaseReport, Failure> {
     match case {
         Case::History { plan, keyring, big } => history(plan, *keyring, *big, &mut rep)?,
         Case::Matrix { start, attempts, nested_dirs, name_shape } => matrix(*start, attempts, *nested_dirs, *name_shape, &mut rep)?,
-        Case::ConcurrentOpen { threads } => concurrent(*threads, &mut rep)?,
+        Case::ConcurrentOpen { threads, with_key } => concurrent(*threads, *with_key, &mut rep)?,
     }
     Ok(rep)
 }
@@ -608,7 +639,7 @@ pub fn main(args: &Args) -> i32 {
             prop_oneof![
                 3 => (plan_strategy(&opts, &weights, len.clone()), any::<bool>(), 0u8..5).prop_map(|(plan, keyring, big)| Case::History { plan, keyring, big }),
                 5 => (fstate.clone(), prop::collection::vec(ctor.clone(), 1..7), 0u8..3, prop_oneof![2 => Just(0u8), 3 => 1u8..5]).prop_map(|(start, attempts, nested_dirs, name_shape)| Case::Matrix { start, attempts, nested_dirs, name_shape }),
-                1 => (2u8..17).prop_map(|threads| Case::ConcurrentOpen { threads }),
+                2 => (2u8..17, any::<bool>()).prop_map(|(threads, with_key)| Case::ConcurrentOpen { threads, with_key }),
             ]
         },
         exec,
